@@ -84,6 +84,28 @@ func badPath(F []Graph, o ropt, q []int) (bad bool, reached bool, why string) {
 	return false, reached, ""
 }
 
+// nodeAt: the node path q designates (nil: none)
+func nodeAt(F []Graph, q []int) *Node {
+	gi := 0
+	for i, k := range q {
+		if gi < 0 || gi >= len(F) {
+			return nil
+		}
+		nd := findNode(F[gi], k)
+		if nd == nil {
+			return nil
+		}
+		if i == len(q)-1 {
+			return nd
+		}
+		if nd.Kind != "sub" {
+			return nil
+		}
+		gi = nd.Sub
+	}
+	return nil
+}
+
 func eqPath(a, b []int) bool {
 	if len(a) != len(b) {
 		return false
@@ -350,6 +372,13 @@ func judge(c *Case, obs []CallObs, res *lib.Result) {
 					nestedDesignated = true
 				}
 				bad, reached, why := badPath(c.Forest, op, q)
+				if nd := nodeAt(c.Forest, q); nd != nil && nd.Kind == "comp" && isIfaceTy(nd.Ty) {
+					if len(op.items) > 0 {
+						tags["opt:value-designated-to-iface-lambda"] = true
+					} else {
+						tags["opt:handler-designated-to-iface-lambda"] = true
+					}
+				}
 				if bad {
 					badAny = true
 					whyAny = why
@@ -462,6 +491,9 @@ func judge(c *Case, obs []CallObs, res *lib.Result) {
 			// no leak between calls
 			for _, pl := range o.Deliv {
 				for _, v := range pl.Vals {
+					if v == undecodable {
+						fail("wrong-delivery", fmt.Sprintf("call %d: node %s received an option value that is not of its option type (the node cannot read its payload)", i, pathName(pl.Path)))
+					}
 					if !pOwn[v][i] {
 						fail("leak", fmt.Sprintf("call %d: node %s received option payload %d of another call", i, pathName(pl.Path), v))
 					}
